@@ -112,6 +112,62 @@ pub fn gen_plan(rng: &mut Rng, focus: Focus, big: bool) -> Plan {
     Plan { cap, kind, regime, scripts, joiner, results, report_result: rng.below(3) as u8, failing_flushes }
 }
 
+/// C04: the ring is (nearly) full when the flush request is made, the deadline is hit every 32 entries, and
+/// producers keep appending: the request can only be woken by the counter protocol.
+pub fn gen_flush_big(rng: &mut Rng) -> Plan {
+    let cap = *rng.pick(&[33usize, 40, 64, 70, 100]);
+    let mut ops = vec![];
+    let mut seq = 0;
+    for _ in 0..(cap as u64 + rng.range(0, 8)) {
+        ops.push(Op::Append(seq));
+        seq += 1;
+    }
+    ops.push(Op::Flush);
+    for _ in 0..rng.range(0, 70) {
+        if rng.chance(1, 12) {
+            ops.push(Op::Flush);
+        } else {
+            ops.push(Op::Append(seq));
+            seq += 1;
+        }
+    }
+    ops.push(Op::DropJoin);
+    ops.push(Op::DropH);
+    let mut scripts = vec![ops];
+    if rng.chance(1, 2) {
+        let mut o2 = vec![];
+        for i in 0..rng.range(0, 20) {
+            o2.push(if rng.chance(1, 6) { Op::Flush } else { Op::Append(i) });
+        }
+        o2.push(Op::DropH);
+        scripts.push(o2);
+    }
+    Plan { cap, kind: rng.below(3) as u8, regime: 1, scripts, joiner: 1, results: vec![], report_result: 0, failing_flushes: vec![] }
+}
+
+/// C05: more than 32 entries are queued when the join handle is dropped (the shutdown drain re-checks its
+/// deadline every 32 entries), appends and flush requests continue during and after the shutdown.
+pub fn gen_shutdown_big(rng: &mut Rng) -> Plan {
+    let cap = *rng.pick(&[40usize, 64, 100]);
+    let mut ops = vec![];
+    let mut seq = 0;
+    for _ in 0..rng.range(33, cap as u64) {
+        ops.push(Op::Append(seq));
+        seq += 1;
+    }
+    if rng.chance(1, 2) {
+        ops.push(Op::Flush);
+    }
+    let forget = rng.chance(1, 4);
+    ops.push(if forget { Op::Forget } else { Op::DropJoin });
+    for _ in 0..(if forget { 0 } else { rng.range(0, 5) }) {
+        ops.push(Op::Append(seq));
+        seq += 1;
+    }
+    ops.push(Op::DropH);
+    Plan { cap, kind: rng.below(3) as u8, regime: 1, scripts: vec![ops], joiner: 1, results: vec![], report_result: 0, failing_flushes: vec![] }
+}
+
 pub struct SchedStats {
     pub overflowed: bool,
     pub flushes: usize,
@@ -254,7 +310,7 @@ pub fn gen_stress(rng: &mut Rng, focus: Focus, thorough: bool) -> StressPlan {
     };
     StressPlan {
         cap, kind: rng.below(3) as u8, threads, per_thread,
-        stall: focus == Focus::Overflow && rng.chance(1, 2),
+        stall: (focus == Focus::Overflow || focus == Focus::Shutdown) && rng.chance(1, 2),
         flush_every: if rng.chance(1, 2) { *rng.pick(&[3, 17, 50]) as usize } else { 0 },
         interval_us: *rng.pick(&[1, 100, 5000, 1_000_000]),
         val_every: *rng.pick(&[0, 0, 3, 10]),
@@ -283,7 +339,7 @@ pub fn emit_stress(out: &mut Out, p: &StressPlan) {
     }
     let counters = Arc::new(Mutex::new(HashMap::new()));
     let rec = LogRecorder { log: log.clone(), counters: counters.clone(), queue_len: Arc::new(Mutex::new(vec![])) };
-    let stream = RecStream { log: log.clone(), script, gate: Some(gate.clone()), flush_calls: 0 };
+    let stream = RecStream { log: log.clone(), script, gate: Some(gate.clone()), flush_calls: 0, before_call: None };
     let b = BackgroundQueueBuilder::new()
         .capacity(p.cap)
         .flush_interval(Duration::from_micros(p.interval_us))
@@ -415,7 +471,11 @@ pub fn run_family(ctx: &Ctx, focus: Focus, rule: &str) {
         return;
     }
     let t0 = Instant::now();
-    let (n_sched, n_big, n_stress, budget) = if ctx.tier_thorough { (12000, 60, 60, 300.0) } else { (1500, 8, 12, 35.0) };
+    let (n_sched, mut n_big, n_stress, budget) = if ctx.tier_thorough { (12000, 60, 60, 300.0) } else { (1500, 8, 12, 35.0) };
+    if focus == Focus::Flush {
+        // the counter protocol only matters when more than 32 entries are queued in front of a request
+        n_big *= 8;
+    }
     // phase 1: no tracing subscriber (in-band reports possible); phase 2: subscriber installed
     for phase in 0..2 {
         if phase == 1 {
@@ -431,8 +491,8 @@ pub fn run_family(ctx: &Ctx, focus: Focus, rule: &str) {
             emit_scheduled(&mut s, &plan, &mut rng, None, bias);
         }
         for _ in 0..n_big / 2 {
-            let plan = gen_plan(&mut rng, focus, true);
-            let bias = *rng.pick(&[1, 4]);
+            let plan = if focus == Focus::Flush && rng.chance(1, 2) { gen_flush_big(&mut rng) } else { gen_plan(&mut rng, focus, true) };
+            let bias = *rng.pick(&[0, 0, 1, 4]);
             emit_scheduled(&mut s, &plan, &mut rng, None, bias);
         }
         for _ in 0..n_stress / 2 {
